@@ -415,6 +415,23 @@ fn eval_encrypt_at(case: &Case, acc: &mut Acc, t: &Tab, e: usize, s: usize, r: u
     let direct = || call(|| ECIES::encrypt(&message, &sk_s, &pk_r, !has_pub)).ok().and_then(|r| r.ok()).map(|c| c.to_bytes());
     check_ciphertext(acc, case, &input, t, ENTRIES[e], &ct, s, r, s_c, r_c, has_pub, &message, &direct);
 
+    // wrong keys presented to the FRESH ciphertext object (not one parsed back from bytes): the reference decides, which
+    // for distinct keys is always "error" - over the whole length sweep this makes several thousand wrong-key probes
+    {
+        let nk = t.secrets.len();
+        let bytes = guard(|| ct.to_bytes()).unwrap_or_default();
+        for (role, wr, ws) in [("wrong-recipient-key", (r + 1) % nk, s), ("wrong-sender-key", r, (s + 2) % nk)] {
+            if (wr, ws) == (r, s) {
+                continue;
+            }
+            if let (Ok(sk_w), Ok(pk_w)) = (t.lib_priv(wr, true), t.lib_pub(ws, true)) {
+                let want = ref_decrypt(&t.shared[wr][ws], &bytes, has_pub);
+                acc.transitions += 1;
+                expect_decrypt(acc, case, &input, "ECIES::decrypt", &format!("{}/object=fresh-from-encrypt", role), call(|| ECIES::decrypt(&ct, &sk_w, &pk_w)), &want, &message);
+            }
+        }
+    }
+
     // key derivation from the sender's end (the recipient's end is checked with the ciphertext)
     acc.transitions += 1;
     acc.traces += 1;
